@@ -99,6 +99,9 @@ type Cluster struct {
 	T          *tracer.Tracer
 	DSEVersion string
 	MaxVersion primitive.ProtocolVersion // 0 = accept everything the library knows
+	// Handshake, when set, sees every decoded frame before the default handling (backend personalities during the
+	// connection handshake: version refusals, authentication exchanges, REGISTER answers); true = it has answered.
+	Handshake func(cn *Conn, a *Attempt) bool
 	Script     func(a *Attempt) Outcome
 	// PrepareScript decides the outcome of PREPARE frames without a token (re-prepares); nil = ok
 	PrepareScript func(a *Attempt) Outcome
@@ -522,6 +525,9 @@ func (cn *Conn) handle(a *Attempt) {
 	if muted {
 		return
 	}
+	if c.Handshake != nil && c.Handshake(cn, a) {
+		return
+	}
 	hdr := &a.Header
 	cn.N.mu.Lock()
 	nodeMax := cn.N.maxVer
@@ -846,6 +852,37 @@ func (cn *Conn) sendFull(hdr *frame.Header, msg message.Message, out Outcome) {
 	cn.wmu.Lock()
 	cn.nc.Write(buf.Bytes())
 	cn.wmu.Unlock()
+}
+
+// Reply answers a frame with msg, in the version v (0: the frame's own).
+func (cn *Conn) Reply(hdr *frame.Header, v primitive.ProtocolVersion, msg message.Message) {
+	h := *hdr
+	if v != 0 {
+		h.Version = v
+	}
+	cn.send(&h, msg, 0, nil)
+}
+
+// CompleteStartup does what the default STARTUP handling does once the connection is accepted: done (READY or
+// AUTH_SUCCESS) is sent uncompressed, then the connection switches to the compression asked for.
+func (cn *Conn) CompleteStartup(hdr *frame.Header, comp string, done message.Message) {
+	c := cn.N.C
+	cn.Version = hdr.Version
+	cn.send(hdr, done, 0, nil)
+	cn.Started = true
+	switch comp {
+	case "lz4":
+		cn.compressor = lz4.Compressor{}
+		cn.codec = frame.NewRawCodecWithCompression(lz4.Compressor{})
+	case "snappy":
+		cn.compressor = snappy.Compressor{}
+		cn.codec = frame.NewRawCodecWithCompression(snappy.Compressor{})
+	}
+	cn.Compression = comp
+	c.T.Emit("BackendConn", "b", cn.ID, "host", cn.N.IP, "version", int(cn.Version), "compression", comp, "local", cn.Local)
+	if c.OnConn != nil {
+		c.OnConn(cn)
+	}
 }
 
 // WriteRaw writes bytes verbatim to the connection (hostile backend).
